@@ -668,6 +668,23 @@ Theorem C15_view_observed : forall (w : world3) (o : op3),
 Proof. exact step3g_spec. Qed.
 Print Assumptions C15_view_observed.
 
+(** EVERY store operation either counts itself ([bumps]: which network's `_version` moves — add after the edge is stored,
+    remove_rxn after the pop, remove_species / assign_mol / set_mol_map after their KeyError test, WHATEVER their options, merge
+    through add_rxn) or leaves every export of every network unchanged, for every flag combination of the bipartite export and
+    for the species graph.  Hence a cached view whose version is current is the current export (C15_view_graph_current).
+    Excluded: the copy into a slot (the slot is re-bound to a new object whose backends are re-created) and the caller-side
+    coefficient edits (the known finding).  The class of seeded change C16-w4-1 (remove_species counting itself only on the
+    prune_orphans=True path): the model counts on both paths, so the correspondence and the `view-current` oracle clause break. *)
+Theorem C15_version_or_unchanged : forall (w : world2) (o : op2),
+  match o with OSideSet _ _ _ _ _ | OSideIncr _ _ _ _ _ => False | _ => True end ->
+  (forall i j, o <> OBase (OCopy i j)) ->
+  bumps w o (step2 w o).1.1 (step2 w o).1.2 = None ->
+  forall (k : nat) (fl : bflags) (b : bool),
+    hypergraph_to_bipartite fl (getn (nets (step2 w o).1.1) k) = hypergraph_to_bipartite fl (getn (nets w) k) /\
+    hypergraph_to_species_graph b (getn (nets (step2 w o).1.1) k) = hypergraph_to_species_graph b (getn (nets w) k).
+Proof. exact version_or_unchanged. Qed.
+Print Assumptions C15_version_or_unchanged.
+
 (** the cache works: right after an access of an existing backend, a second access hands out the same graph WITHOUT
     rebuilding and changes nothing (and so on until a store method is called on the network: [C15_view_store], [bumps]) *)
 Theorem C15_view_cached : forall (w : world3) (b : nat), (b < length (backends w))%nat ->
